@@ -49,7 +49,15 @@ func runP7Sign(sc M) {
 	content := prbytes(fmt.Sprint("c05:", id), size)
 	if (ct == "other" || ct == "longoid") && size > 0 {
 		// the content of an arbitrary content type is placed inside a SEQUENCE by the library: give it DER shape
-		content = derTLV(0x04, content)
+		switch str(sc, "shape") {
+		case "seq": // exactly one complete SEQUENCE
+			content = derTLV(0x30, derTLV(0x04, content))
+		case "seq2": // two SEQUENCEs back to back
+			h := len(content) / 2
+			content = append(derTLV(0x30, derTLV(0x04, content[:h])), derTLV(0x30, derTLV(0x04, content[h:]))...)
+		default:
+			content = derTLV(0x04, content)
+		}
 	}
 	cert := testCert(key, issuer, serial)
 	other := testCert("k3", "i2", "s2")
